@@ -85,6 +85,26 @@ CHECKS = {
              "lazy nested generators are runtime behaviour observed through the correspondence only.",
         technique="Lean 4 proof (sortedness + groupBy lemmas) + differential correspondence",
     ),
+    "C15": dict(
+        category="proof",
+        text="Lean theorems about runOnce (one run of otel_to_pv in a new process on the store an earlier run left) for "
+             "every input, batch size and history of runs with flags {ingest,no-ingest} x {unique}: the store invariant and "
+             "faithful links hold after every history (history_inv), so ingestion and cleaning never raise an "
+             "IntegrityError in any later run and the only possible failures are those a fresh database has too; a run "
+             "equals its batch-free closed form (runOnce_eq_spec); the window of a re-ingesting run is the first run's "
+             "(ingest_window); hash rows left by earlier runs never influence a run (runSpec_hashes_irrelevant); "
+             "re-ingesting adds back exactly the removed spans. PARTIAL: the universal 'same PV sequences and shapes as "
+             "the first run' clause is a stated Prop (rerun_same_answer_full), not yet a theorem; it is decided on "
+             "histories of real separate-process runs over one sqlite file (every pair of flag triples on several data "
+             "sets, seeded length 3-4; thorough every triple) against fresh-database runs, and the model is compared "
+             "with the database tables after every run.",
+        ref="DESIGN.md §5 C15",
+        note="Trusted: Lean kernel; axioms propext, Quot.sound, Classical.choice; SQLite/SQLAlchemy/file system modelled, "
+             "observed through table dumps after every separate-process run. Completion is proved; answer-equality is "
+             "validated, not proved.",
+        technique="Lean 4 proof (invariant over run histories, closed form) + separate-process differential correspondence + "
+                  "fresh-run oracle",
+    ),
     "C16": dict(
         category="proof",
         text="Lean theorems for every instant 1970..2100 at µs precision: calendar round trip (kernel-checked table of all "
